@@ -334,7 +334,7 @@ class Oracle:
             elif got2 != got:
                 res.violate("sgr-repeat/%s/%s" % (who, kind), self.case(desc, system=T, fg=fg),
                             "%r: second call %r, first %r" % (c, got2, got))
-        if g0 != wf:
+        if who == "input" and g0 != wf:
             res.violate("sgr/%s/%s/default-arg" % (who, s[0]), self.case(desc, system=T),
                         "%r.get_ansi_codes() = %r, want foreground %r" % (c, g0, wf))
 
